@@ -30,6 +30,7 @@ const (
 	r5Quick, r5Thorough         = 1600, 60000 // round 5: router+lifecycle
 	r6Quick, r6Thorough         = 1500, 50000 // round 6: router+refused
 	r7Quick, r7Thorough         = 1800, 60000 // round 7: standalone+panics, router+panics (alternating)
+	r8Quick, r8Thorough         = 1200, 40000 // round 8: router+inherited
 )
 
 func init() {
@@ -37,7 +38,7 @@ func init() {
 		ID:    "C13",
 		Level: "exploration",
 		Cases: func(tier string) int {
-			return vlib.TierN(tier, legacyQuick+extQuick+r4Quick+r5Quick+r6Quick+r7Quick, legacyThorough+extThorough+r4Thorough+r5Thorough+r6Thorough+r7Thorough)
+			return vlib.TierN(tier, legacyQuick+extQuick+r4Quick+r5Quick+r6Quick+r7Quick+r8Quick, legacyThorough+extThorough+r4Thorough+r5Thorough+r6Thorough+r7Thorough+r8Thorough)
 		},
 		Rule: "case = one PoisonQueue instance (constructor without filter, or PoisonQueueWithFilter with one of 7 predicates: all, none, errors.Is sentinel, " +
 			"its negation, errors.As type, hash of the text, not context.Canceled) with a random poison topic, 1..6 messages (random payload, 0..4 random metadata keys, " +
@@ -90,6 +91,13 @@ func init() {
 			"45% of the messages are 'outage' messages: one failure the filter accepts on every delivery, the publisher panics (70%) or fails on the first 1..3 deliveries and accepts on the last one (panic -> Nack -> redelivery -> poisoned); " +
 			"other messages: 7% of the attempts the handler itself panics with one of these values instead of returning, 7% (filter present; stand-alone or per-attempt tagged errors, 50%) the filter panics when asked about the failure; " +
 			"the spy records that a panic left the poison middleware and passes it on unchanged; the stand-alone caller recovers it, counts it as a reported failure and retries the same message like after an error. " +
+			"Round-8 class (the last 1200 quick / 40000 thorough indices): 'router+inherited' = the Router class (1..3 judged handlers, all names non-empty, topology and registration as in 'router+ctx', 20%: foreign context values) behind a " +
+			"Pub/Sub that hands the context VALUES of the published message to the consumer, fed by 1..2 upstream Router handlers (in a Router of their own, or - PoisonQueue handler-level, 50% - in the judged Router itself; upstream name 1/8 empty, " +
+			"upstream topic 1/8 spelled like a judged handler's; with or without publisher): 80% of the messages first travel through 1..2 upstream hops and reach the judged handler with a context that already carries the Router's own " +
+			"handler/topic/subscriber/publisher values of the upstream handler(s); per hop the context handed on is that of {the message the upstream handler consumed, a fresh message it produced, a produced message to which it copied the " +
+			"consumed context, the consumed *Message returned as output (values stacked twice)}; transport into the judged subscription: {context.WithoutCancel(published), the published context as is, subscription context with the " +
+			"published values behind it}; a redelivery after a Nack starts from the published context again or carries the values of the previous (nacked) delivery's context (the judged handler's own values stacked below the new ones); " +
+			"expected poison names = those of the handler that consumed the message, never the inherited ones. " +
 			"Every attempt is one evaluation of the model; a case is non-trivial when at least " +
 			"one attempt failed with an error the filter accepts (the poison publisher was due); distinct = distinct (mode, filter, registration, topology, per-attempt " +
 			"(error shape, outputs, filter verdict, publisher outcome, settlement), per-message context-injection shape, lifecycle history incl. the observed failed start-up attempts, refused calls (kind, instant, handler, arguments, outcome)) signatures.",
@@ -118,6 +126,10 @@ func init() {
 				"a panic that leaves the middleware while none was drawn (or before the publisher panicked) is the middleware's own: clause 'panic'",
 			"'+panics': a handler that panics has neither succeeded nor returned an error, a filter that panics has given no verdict: no row of the statement applies, only its invariant is demanded - no success (nil error / Ack) " +
 				"unless the poison publisher accepted the message during that invocation ('success-after-panic', 'acked-but-neither-handled-nor-poisoned'); Nack, a propagating panic, a returned error, or a successful poison publish followed by Ack are all allowed",
+			"'router+inherited': Message.Context / SetContext are public and a Pub/Sub may hand the published message's context values to the consumer (upstream GoChannel PreserveContext, in-process pipes); the Router stores the handler's values " +
+				"in the context of every consumed and every produced message, so a message that went through handler A carries A's values when handler B consumes it; godoc of HandlerNameFromCtx / SubscribeTopicFromCtx / SubscriberNameFromCtx: " +
+				"'... in the router that consumed the message' => the poison message of B names B's handler, topic and subscriber; every judged handler has a non-empty name, topic and subscriber name in this class (what an EMPTY name should " +
+				"shadow is not judged); an upstream hop that does not ack / hand on a context makes the case inconclusive",
 			"outputs returned together with an accepted error are not judged (the statement is silent on them)",
 			"a blocked call is decided by the quiescence detector, not by a time-out",
 		},
@@ -164,10 +176,11 @@ type attemptObs struct {
 }
 
 type msgState struct {
-	plan     *msgPlan
-	attempts []*attemptObs
-	copies   []*message.Message // router mode: the copies the subscriber emitted
-	acked    bool               // router mode: Deliver's verdict
+	plan      *msgPlan
+	attempts  []*attemptObs
+	copies    []*message.Message // router mode: the copies the subscriber emitted
+	inherited *names             // 'router+inherited': what the Router's accessors read from the context the message arrived with
+	acked     bool               // router mode: Deliver's verdict
 }
 
 type names struct{ Topic, Handler, Subscriber string }
@@ -191,6 +204,8 @@ type world struct {
 	filterNilErr       int // filter calls with a nil error
 	filterUnattributed int // filter calls while no handler invocation was between "handler returned" and "middleware returned"
 	filterAmbiguous    int // filter calls that could belong to more than one handler invocation
+
+	up *upstream // 'router+inherited': the upstream handlers
 }
 
 // current returns the latest attempt of the message with this UUID (caller holds mu).
@@ -387,18 +402,20 @@ func (w *world) poisonPub(name string) *vlib.Pub {
 // case
 
 type config struct {
-	Mode        string    `json:"mode"`
-	Variant     string    `json:"variant,omitempty"` // "" (base classes) | "ctx" | "shared"
-	Filter      string    `json:"filter"`
-	PoisonTopic string    `json:"poison_topic"`
-	Reg         string    `json:"registration,omitempty"`
-	Concurrent  bool      `json:"concurrent,omitempty"`
-	CtxValues   bool      `json:"foreign_ctx_values,omitempty"`
-	FilterParam string    `json:"filter_param,omitempty"`  // '+stateful': parameters of the filter with memory
-	TaggedErrs  bool      `json:"tagged_errors,omitempty"` // '+stateful', '+panics': every planned error is wrapped in a per-attempt *tagErr
-	Recoverer   bool      `json:"recoverer_outermost,omitempty"` // 'router+panics': middleware.Recoverer above everything (a panic reaches the Router as an error)
-	Handlers    []hcfg    `json:"handlers,omitempty"`
-	Life        *lifePlan `json:"lifecycle,omitempty"` // 'router+lifecycle': the history of the Router before / between the deliveries
+	Mode         string    `json:"mode"`
+	Variant      string    `json:"variant,omitempty"` // "" (base classes) | "ctx" | "shared"
+	Filter       string    `json:"filter"`
+	PoisonTopic  string    `json:"poison_topic"`
+	Reg          string    `json:"registration,omitempty"`
+	Concurrent   bool      `json:"concurrent,omitempty"`
+	CtxValues    bool      `json:"foreign_ctx_values,omitempty"`
+	FilterParam  string    `json:"filter_param,omitempty"`        // '+stateful': parameters of the filter with memory
+	TaggedErrs   bool      `json:"tagged_errors,omitempty"`       // '+stateful', '+panics': every planned error is wrapped in a per-attempt *tagErr
+	Recoverer    bool      `json:"recoverer_outermost,omitempty"` // 'router+panics': middleware.Recoverer above everything (a panic reaches the Router as an error)
+	Handlers     []hcfg    `json:"handlers,omitempty"`
+	Life         *lifePlan `json:"lifecycle,omitempty"`                 // 'router+lifecycle': the history of the Router before / between the deliveries
+	Up           []upcfg   `json:"upstream_handlers,omitempty"`         // 'router+inherited'
+	UpSameRouter bool      `json:"upstream_in_judged_router,omitempty"` // 'router+inherited'
 }
 
 type hcfg struct {
@@ -424,12 +441,15 @@ func run(e *vlib.Env) vlib.Result {
 	r5 := e.Idx >= legacyN+vlib.TierN(e.Tier, extQuick, extThorough)+vlib.TierN(e.Tier, r4Quick, r4Thorough)
 	r6 := e.Idx >= legacyN+vlib.TierN(e.Tier, extQuick, extThorough)+vlib.TierN(e.Tier, r4Quick, r4Thorough)+vlib.TierN(e.Tier, r5Quick, r5Thorough)
 	r7 := e.Idx >= legacyN+vlib.TierN(e.Tier, extQuick, extThorough)+vlib.TierN(e.Tier, r4Quick, r4Thorough)+vlib.TierN(e.Tier, r5Quick, r5Thorough)+vlib.TierN(e.Tier, r6Quick, r6Thorough)
+	r8 := e.Idx >= legacyN+vlib.TierN(e.Tier, extQuick, extThorough)+vlib.TierN(e.Tier, r4Quick, r4Thorough)+vlib.TierN(e.Tier, r5Quick, r5Thorough)+vlib.TierN(e.Tier, r6Quick, r6Thorough)+vlib.TierN(e.Tier, r7Quick, r7Thorough)
 	cfg := config{Mode: "standalone", Filter: filterKinds[r.Intn(len(filterKinds))]}
 	stateful := false
 	if !ext {
 		if e.Idx%2 == 1 {
 			cfg.Mode = "router"
 		}
+	} else if r8 {
+		cfg.Mode, cfg.Variant, cfg.CtxValues = "router", "inherited", r.Chance(0.2)
 	} else if r7 {
 		cfg.Variant, cfg.CtxValues, cfg.TaggedErrs = "panics", r.Chance(0.15), r.Bool()
 		if e.Idx%2 == 1 {
@@ -641,6 +661,10 @@ func run(e *vlib.Env) vlib.Result {
 		}
 	}
 
+	if cfg.Variant == "inherited" {
+		genInherited(r, e.ID(), &cfg, w.order)
+	}
+
 	if cfg.Mode == "standalone" {
 		runStandalone(&res, w, pq, &cfg)
 	} else if cfg.Life != nil {
@@ -768,6 +792,18 @@ func runRouter(res *vlib.Result, w *world, pq message.HandlerMiddleware, cfg *co
 	if cfg.Reg == regShared {
 		guarded = w.chain(pq, cfg)
 	}
+	if cfg.Variant == "inherited" {
+		w.up = &upstream{cfg: cfg, take: map[string]string{}, got: map[string]context.Context{}}
+		if cfg.UpSameRouter {
+			w.up.addTo(router)
+		} else {
+			defer w.up.close()
+			if !w.up.start() {
+				res.Inconclusive("upstream router did not start")
+				return
+			}
+		}
+	}
 	subs := make([]*vlib.Sub, len(cfg.Handlers))
 	msubs := make([]message.Subscriber, len(cfg.Handlers))
 	outPubs := make([]*vlib.Pub, len(cfg.Handlers))
@@ -844,6 +880,18 @@ func runRouter(res *vlib.Result, w *world, pq message.HandlerMiddleware, cfg *co
 		var acked bool
 		if cfg.Variant == "" {
 			copies, acked = sps[ms.plan.Handler].Deliver(ms.plan.build(), len(ms.plan.Attempts)-1)
+		} else if ms.plan.Inherit != nil {
+			ictx, ok := w.up.travel(ms)
+			if !ok {
+				return // recorded by the upstream: the case is inconclusive
+			}
+			in := inheritedNames(ictx)
+			w.mu.Lock()
+			ms.inherited = &in
+			w.mu.Unlock()
+			copies, acked = deliverInherited(sps[ms.plan.Handler], ms, ictx, len(ms.plan.Attempts)-1, func(c *message.Message) {
+				applyCtx(c, ms.plan.Ctx, placeEmit, false)
+			})
 		} else {
 			copies, acked = deliverWith(sps[ms.plan.Handler], ms.plan.build(), len(ms.plan.Attempts)-1, func(c *message.Message) {
 				applyCtx(c, ms.plan.Ctx, placeEmit, false)
